@@ -95,6 +95,26 @@ def options_product(tier):
     return out
 
 
+def reconfigure_product(tier):
+    """runs split over several solve calls with a public reconfiguration between the calls: constraints.minRadius raised above
+    every populated size class (the whole population is discarded at once) or into the population (part of it)"""
+    quick = tier == 'quick'
+    levels = {
+        'system': ['bin', 'tern'],
+        'nphases': [1, 2],
+        'it': ['euler', 'rk4'],
+        'minR': [2e-8, 2e-9] if quick else [2e-8, 2e-9, 1e-9, 5e-9],
+        'preload': [True, 5e21] if quick else [True, 5e21, 1e23],
+        'split': [2] if quick else [2, 3],
+        'temp': ['iso'] if quick else ['iso', 'hrh'],
+    }
+    out = []
+    for c in _mk(levels, {'tf': 20.0, 'max_steps': 8000, 'constraints': {'dtScale': 0.05}}):
+        c['between'] = {'minRadius': c.pop('minR')}
+        out.append(c)
+    return out
+
+
 def floor_product(tier):
     """a positive constraints.minComposition that the matrix content of one solute crosses during the run (the matrix of the
     default alloys falls from 0.01 / 0.02 to 4e-4 / 1e-3): the documented clamp applies to NEGATIVE mass-balance values only"""
